@@ -277,7 +277,7 @@ def check_par(tier, pid, chk=None):
             chk.violation("property", "un-scheduled parallel run returns %s, optimum %s" % (f.get("bv"), opt), {"instance": il, "case": case, "impl": li})
         else: stress_ok += 1
     stats["unscheduled_stress_runs_ok"] = stress_ok
-    if pid == "C03" and not embedded:
+    if pid in ("C03", "C04") and not embedded:
         from check_solve import par_one_worker_cache_batch
         stats["one_worker_cache_runs"] = par_one_worker_cache_batch(chk, rng, 300 if tier == "quick" else 3000)
     if embedded:
